@@ -24,7 +24,7 @@ def _install_trade_logger():
     """Wrap SecurityBase.transact (class attribute, so calls made inside the
     library go through it too) to log every executed trade (full name, q)."""
     core = bt.core
-    if getattr(core.SecurityBase.transact, "_btverif", False):
+    if getattr(core.SecurityBase.transact, "_btverif_tradelog", False):
         return
     orig = core.SecurityBase.transact
 
@@ -34,9 +34,11 @@ def _install_trade_logger():
             return orig(self, q, *a, **k)
         finally:
             if self._position != pos0:
+                if len(TRADELOG) > 5000:  # nobody is consuming (an unrecorded tree): do not grow
+                    del TRADELOG[:]
                 TRADELOG.append((self.full_name, float(self._position - pos0)))
 
-    transact._btverif = True
+    transact._btverif_tradelog = True
     core.SecurityBase.transact = transact
 
 
@@ -233,7 +235,14 @@ def raw_observe(root, C, dts, fresh, prev_inow):
     o["chk_prev"] = chk_prev & 0x3FFFFFFF
     pr = root.prices
     p_now = _row(pr, inow)
-    p_before = 100.0 if inow == 0 else _row(pr, inow - 1)
+    # the index level at the previous date the tree was updated on (100 before any)
+    if prev_inow is None or prev_inow < 0:
+        p_before = 100.0
+    elif prev_inow < inow:
+        p_before = _row(pr, prev_inow)
+    else:
+        p_before = float("nan")  # same date: filled in by the recorder
+    o["same_date"] = prev_inow is not None and prev_inow == inow
     o["price"] = p_now
     o["pprice"] = p_before
     return o
@@ -253,6 +262,7 @@ class Recorder:
         self.decw = Decoder(C["DW"])
         self.events = []
         self.raws = {}
+        self.base_price = 100.0
         self.prev_raw = None
         self.prev_inow = None  # date index at the previous event
         self.last_date_inow = None  # date index before the most recent date change
@@ -381,6 +391,10 @@ class Recorder:
             self.events.append(ev)
             return ev
         inow = raw["inow"]
+        if raw.get("same_date"):
+            raw["pprice"] = self.base_price
+        elif "pprice" in raw:
+            self.base_price = raw["pprice"]
         ev["fresh"] = bool(fresh and inow >= 0)
         rau = True
         same = False
@@ -486,7 +500,7 @@ def _same(a, b):
             return x == y or (math.isnan(x) and math.isnan(y)) or math.isclose(x, y, rel_tol=1e-11, abs_tol=1e-10)
         return x == y
 
-    keys = [k for k in a if k not in ("chk_prev", "prev", "chk_now")]
+    keys = [k for k in a if k not in ("chk_prev", "prev", "chk_now", "pprice", "same_date")]
     return all(k in b and eq(a[k], b[k]) for k in keys)
 
 
